@@ -66,6 +66,24 @@ def showList (l : List String) : String := "[" ++ ",".intercalate l ++ "]"
 
 def okBad (b : Bool) : String := if b then "ok" else "bad"
 
+/-- inputs that exist nowhere, as `<tx>@<output>` in pool order -/
+def showOrphans (utxo : List Nat) (txs : List Tx) : String :=
+  showList ((orphans utxo txs).map fun (t, i) => s!"{txSig t}@o{i}")
+
+/-- the submitted form of a registered transaction: `v3` commit-only; `v2` features-and-commit
+with the features of the spent outputs; `v2x` the same with every claimed feature wrong; `v2u`
+features-and-commit left in commitment order where the `Input` order differs -/
+def subTxOf (c : Ctx) (tx : Tx) (form : String) : Option SubTx :=
+  let isCb (i : Nat) : Bool := match c.outs.find? (·.id == i) with | some d => d.cb | none => false
+  let base (inputs : Inputs) (sorted : Bool) : SubTx :=
+    { inputs, sorted, outs := tx.outs, kers := tx.kers, tags := tx.tags }
+  match form with
+  | "v3" => some (base (.commitOnly tx.ins) true)
+  | "v2" => some (base (.featuresAndCommit (tx.ins.map fun i => (isCb i, i))) true)
+  | "v2x" => some (base (.featuresAndCommit (tx.ins.map fun i => (!isCb i, i))) true)
+  | "v2u" => some (base (.featuresAndCommit (tx.ins.map fun i => (isCb i, i))) false)
+  | _ => none
+
 def showObs (st : St) : String :=
   let c := st.ctx
   let u := utxoIds c
@@ -75,7 +93,7 @@ def showObs (st : St) : String :=
   let mine := match st.pool.prepareMineable c with
     | .error e => s!"err:{e}"
     | .ok txs => s!"{showList (txs.map txSig)}:{if mineVerdict c txs then "ok" else "rejected"}"
-  s!"tx={showList (st.pool.txpool.map entrySig)} stem={showList (st.pool.stempool.map entrySig)} cache={showList (st.pool.cache.map entrySig)} jv={okBad jv} jvs={okBad jvs} mine={mine}"
+  s!"tx={showList (st.pool.txpool.map entrySig)} stem={showList (st.pool.stempool.map entrySig)} cache={showList (st.pool.cache.map entrySig)} jv={okBad jv} jvs={okBad jvs} av={showOrphans u tp} avs={showOrphans u (st.pool.stempool.txs ++ tp)} mine={mine}"
 
 /-- The property fixes refusal of low-fee / over-weight / standalone-invalid transactions: if the
 model refuses for one of those reasons and the implementation admits, the line is a failing
@@ -114,8 +132,11 @@ def handle (st : St) (args : List String) (impl : String) : St × Verdict :=
   | "submit" :: t :: rest =>
     match (idOf t).bind (fun i => st.txs.find? (·.1 == i)), (kv rest "src").bind parseSrc, kv rest "stem", kv rest "stemok" with
     | some (_, tx), some src, some stem, some stemOk =>
-      let (p, r) := st.pool.addToPool st.ctx src tx (stem == "1") (stemOk == "1")
-      ({ st with pool := p }, cmpSubmit (showRes r) impl)
+      match subTxOf st.ctx tx ((kv rest "form").getD "v3") with
+      | some sub =>
+        let (p, r) := st.pool.submit st.ctx src sub (stem == "1") (stemOk == "1")
+        ({ st with pool := p }, cmpSubmit (showRes r) impl)
+      | none => (st, .unknown)
     | _, _, _, _ => (st, .unknown)
   | ["obs"] => (st, cmpModel (showObs st) impl)
   | "reconcile_block" :: _ :: rest =>
